@@ -38,7 +38,7 @@ theorem key_tracks_next_check (n : Nat) (max : Int) (hm : 0 ≤ max) (acts : Lis
     (hr : run (init n max) acts = some s) (c : Nat)
     (hk : (s.chk c).keySynced = true) (hi : (s.chk c).inIdle = true) :
     (s.chk c).idleKey = (s.chk c).nextCheck :=
-  ((inv_run acts _ s (inv_init n max hm) hr).1 c).2.2 hk hi
+  ((inv_run acts _ s (inv_init n max hm) hr).1 c).2.2.1 hk hi
 
 example : ((run (init 1 1) [.setActive 0 true, .setPaused 0 false, .objectHandler 0, .setNextCheck 0 77,
     .nextCheckChanged 0]).map fun s => ((s.chk 0).inIdle, (s.chk 0).keySynced, (s.chk 0).idleKey)) = some (true, true, 77) := by
@@ -46,13 +46,22 @@ example : ((run (init 1 1) [.setActive 0 true, .setPaused 0 false, .objectHandle
 
 /-- **single_flight.**  Under the property's event alphabet (no result from outside the execution itself —
     Q-C04), for every interleaving at most one execution of a checkable is between a successful
-    `m_CheckRunning` test-and-set and its result, and one is iff the flag is set. -/
+    `m_CheckRunning` test-and-set and its result — be it a command body inside the helper, a spawned plugin process, or
+    a finished process whose result is on its way to `ProcessCheckResult` — and one is iff the flag is set. -/
 theorem single_flight (n : Nat) (max : Int) (acts : List Act) (s : St)
     (hp : ∀ a ∈ acts, a.isPassive = false) (hr : run (init n max) acts = some s) (c : Nat) :
-    (s.chk c).hx ≤ 1 ∧ ((s.chk c).hx = 1 ↔ (s.chk c).running = true) := by
+    (s.chk c).hx + (s.chk c).procs + (s.chk c).pz ≤ 1 ∧
+    ((s.chk c).hx + (s.chk c).procs + (s.chk c).pz = 1 ↔ (s.chk c).running = true) := by
   have h := flight_run acts _ s hp (fun _ => by unfold FlightInv init; rfl) hr c
   unfold FlightInv at h
-  constructor <;> (split at h <;> simp_all)
+  cases hrun : (s.chk c).running <;> simp [hrun] at h ⊢ <;> omega
+
+/-- asynchronous execution: the helper has long finished, the checkable is idle again, and the process still holds the flag -/
+example : ((run (init 1 2) [.setActive 0 true, .setPaused 0 false, .objectHandler 0, .sched 0 0 true true true,
+    .helperGuard 0, .spawn 0, .pluginInc 0, .helperDec 0, .helperFinish 0, .setNextCheck 0 0, .nextCheckChanged 0,
+    .sched 0 0 true true true, .helperGuard 0]).map
+      fun s => ((s.chk 0).procs, (s.chk 0).running, (s.chk 0).hr, (s.chk 0).inPending, s.counter)) = some (1, true, 1, true, 2) := by
+  decide
 
 /-- Q-C04, kept visible: a passive/cluster result that arrives during an execution resets the flag
     (checkable-check.cpp:103-106), after which a second execution can start — the hypothesis of
@@ -63,22 +72,34 @@ theorem single_flight_counterexample_with_passive_result :
         .objectHandler 0, .sched 0 0 true true true, .helperGuard 0]).map fun s => (s.chk 0).hx) = some 2 := by
   decide
 
-/-- **concurrency_bound.**  For every interleaving the pending-checks counter equals the units held by
-    dispatched helpers, never exceeds `max_concurrent_checks`, and the number of command executions in
-    progress (over all checkables) never exceeds it either. -/
+/-- **concurrency_bound.**  For every interleaving the number of command executions running at once — command bodies
+    inside helpers plus *spawned, unfinished plugin processes*, over all checkables — never exceeds
+    `max_concurrent_checks`; every one of them holds a unit of the pending-checks counter, and the counter is exactly
+    the units held by helpers plus PluginCheckTask's own outstanding `+1`s.  (The invariant behind it: helpers that may
+    still start something + running command bodies + running processes ≤ max; the dispatch needs `counter < max`
+    and every such slot holds a unit.) -/
 theorem concurrency_bound (n : Nat) (max : Int) (hm : 0 ≤ max) (acts : List Act) (s : St)
     (hr : run (init n max) acts = some s) :
-    s.executing ≤ s.counter ∧ s.counter ≤ max ∧ 0 ≤ s.counter := by
-  obtain ⟨_, h2, h3⟩ := inv_run acts _ s (inv_init n max hm) hr
-  have hmax := (run_n_max acts _ s hr).2
-  refine ⟨?_, by simpa [hmax, init] using h3, ?_⟩
-  · rw [h2]; unfold St.executing
-    exact sumTo_le _ _ _ (fun i => by unfold Chk.units; omega)
-  · rw [h2]; exact sumTo_nonneg _ _ (fun i => by unfold Chk.units; omega)
+    s.executing ≤ max ∧ s.executing ≤ s.counter ∧ 0 ≤ s.counter ∧
+    s.counter = sumTo s.n (fun i => (s.chk i).units) := by
+  have hinv := inv_run acts _ s (inv_init n max hm) hr
+  have hmax : s.max = max := (run_n_max acts _ s hr).2
+  have h1 := executing_le_max s hinv
+  have h2 := executing_le_slots s
+  have h3 := slots_le_counter s hinv
+  have h4 := counter_nonneg s hinv
+  exact ⟨by omega, by omega, h4, hinv.2.1⟩
 
 example : ((run (init 2 1) [.setActive 0 true, .setPaused 0 false, .objectHandler 0, .setActive 1 true,
     .setPaused 1 false, .objectHandler 1, .sched 0 0 true true true, .helperGuard 0]).map
       fun s => (s.executing, s.counter, decide (schedEnabled s 1 0))) = some (1, 1, false) := by
+  decide
+
+/-- kept visible: the *counter* itself is not bounded by `max_concurrent_checks` — between PluginCheckTask's `+1` and
+    the helper's `-1` one check holds two units (here: max = 1, counter = 2, one process running) -/
+theorem counter_exceeds_max_with_plugins :
+    ((run (init 1 1) [.setActive 0 true, .setPaused 0 false, .objectHandler 0, .sched 0 0 true true true,
+        .helperGuard 0, .spawn 0, .pluginInc 0]).map fun s => (s.counter, s.max, s.executing)) = some (2, 1, 1) := by
   decide
 
 /-- **next_check_window.**  `Checkable::UpdateNextCheck` (exact arithmetic): for every `now ≥ 0`, scheduling
@@ -166,6 +187,11 @@ example : (traceOf (init 2 1) [.setActive 1 true, .setPaused 1 false, .objectHan
     .helperFinish 1]) = some [.loc 1 true false, .slot 0 1, .decision 1 true false, .loc 1 false true, .execStart 1,
       .loc 1 false false, .execEnd 1, .loc 1 false false, .quiescent 0 false false false 0 0,
       .quiescent 1 false false false 0 0] := by decide
+
+/-- … and by an asynchronous one: the process outlives its helper, exits, and only then delivers its result -/
+example : (traceOf (init 1 1) [.setActive 0 true, .setPaused 0 false, .objectHandler 0, .sched 0 0 true true true,
+    .helperGuard 0, .spawn 0, .pluginInc 0, .helperDec 0, .helperFinish 0, .procExit 0, .procResult 0]).bind
+      (fun tr => some tr.length) = some 8 := by decide
 
 /-- without the alphabet hypothesis the statement is false: the Q-C04 run produces a trace the specification rejects -/
 theorem model_trace_counterexample_with_passive_result :
